@@ -125,6 +125,20 @@ func detProjects(n int) []*detCase {
 			&proj.Conv{Dir: "a", File: "conv.go", Name: "ConvA", Lines: []string{"extend NeedsCtx"},
 				Extra:   "func NeedsCtx(source int, ctxA string, ctxB bool) string { return \"\" }\n",
 				RawBody: "\t// goverter:context ctxC\n\t// goverter:context ctxD\n\tConvert(source In, ctxC float64, ctxD uint) OutBad\n"})
+		// two outputs that cannot be written (a FILE stands where the output directory has to be created): the diagnostic
+		// names one of them — the same one in every run
+		{
+			id := len(cs)
+			mod := fmt.Sprintf("example.org/d%d", id)
+			pr := &proj.Project{Module: mod, Convs: []*proj.Conv{{Dir: "a", File: "conv.go", Name: "ConvA"}, {Dir: "b", File: "conv.go", Name: "ConvB"}, {Dir: "c", File: "conv.go", Name: "ConvC"}},
+				Extra: scratch.Tree{"a/generated": "a file, not a directory\n", "b/generated": "a file, not a directory\n", "c/generated": "a file, not a directory\n"}}
+			cs = append(cs, &detCase{ID: id, Kind: "several-unwritable-outputs", Dirs: []string{"a", "b", "c"}, Project: pr})
+		}
+		// two output files that cannot be RENDERED (output:raw text that is not Go): the diagnostic is that of the same file in every run
+		add("several-unrenderable-outputs", []string{"a", "b"},
+			&proj.Conv{Dir: "a", File: "conv.go", Name: "ConvA", Lines: []string{"output:raw func broken( {"}},
+			&proj.Conv{Dir: "b", File: "conv.go", Name: "ConvB", Lines: []string{"output:raw }} not go"}},
+			&proj.Conv{Dir: "b", File: "conv2.go", Name: "ConvC", Lines: []string{"output:file ./other/gen.go", "output:raw type ( x"}})
 		// many packages (more patterns than any batch size a loader might use), every converter using ONE custom function of
 		// a shared package over a named type of that package: all of them must see the same type, in every run
 		{
@@ -167,7 +181,7 @@ func runC09(e *env) error {
 	bin := goverterBin(e)
 	base := filepath.Join(e.scratch, "c09")
 	_ = os.MkdirAll(base, 0o755)
-	n, reps := 17, 4
+	n, reps := 19, 4
 	if e.thorough {
 		n, reps = 48*e.scale, 12
 	}
